@@ -72,6 +72,58 @@ func TestVerifBoundedArtifactBytes(t *testing.T) {
 			}
 		}
 	}
+	// aliases, duplicates and the issuer graph (C18): small layouts with the expected outcome of Open
+	cfgOf := func(alias, issuer string) string {
+		s := "version: 1\nsubject: CN=x\n"
+		if alias != "" {
+			s += "alias: " + alias + "\n"
+		}
+		if issuer != "" {
+			s += "issuer: " + issuer + "\n"
+		}
+		return s
+	}
+	layouts := []struct {
+		files map[string]string
+		ok    bool
+		ents  int
+		what  string
+	}{
+		{map[string]string{"a/root.yaml": cfgOf("", ""), "b/c/sub.yml": cfgOf("", "root"), "ee.json": "{\"version\":1,\"subject\":\"CN=e\",\"issuer\":\"sub\"}"}, true, 3, "forest with base-name aliases"},
+		{map[string]string{"root.yaml": cfgOf("", ""), "sub.yaml": cfgOf("", "ghost")}, false, 0, "dangling issuer"},
+		{map[string]string{"root.yaml": cfgOf("", ""), "loop.yaml": cfgOf("", "loop")}, false, 0, "self loop"},
+		{map[string]string{"root.yaml": cfgOf("", ""), "x.yaml": cfgOf("", "y"), "y.yaml": cfgOf("", "x")}, false, 0, "cycle of two"},
+		{map[string]string{"a/root.yaml": cfgOf("", ""), "b/root.yaml": cfgOf("", "")}, false, 0, "same base name in two directories"},
+		{map[string]string{"pki/ca.yaml": cfgOf("", ""), "pki/ca.json": "{\"version\":1,\"subject\":\"CN=c\"}"}, false, 0, "same stem, two suffixes"},
+		{map[string]string{"one.yaml": cfgOf("same", ""), "two.yaml": cfgOf("same", "")}, false, 0, "explicit alias twice"},
+		{map[string]string{"root.YAML": cfgOf("", ""), "sub.Yml": cfgOf("", "ghost")}, false, 0, "dangling issuer in an upper-case suffix file"},
+		{map[string]string{"root.yaml": cfgOf("", ""), "notes.txt": "issuer: ghost", "broken.yaml": ": : :", "noversion.yaml": "subject: CN=q\n"}, true, 1, "non-configuration files are skipped"},
+	}
+	for _, l := range layouts {
+		n++
+		d, err, pan := vfOpen(l.files)
+		if pan != nil {
+			fmt.Printf("VERIF-BOUNDED: violation Open panics (%v) for %s\n", pan, l.what)
+			return
+		}
+		if l.ok != (err == nil) {
+			fmt.Printf("VERIF-BOUNDED: violation %s: Open err=%v, expected success=%v\n", l.what, err, l.ok)
+			return
+		}
+		if l.ok && d.NumEntities() != l.ents {
+			fmt.Printf("VERIF-BOUNDED: violation %s: %d entities, expected %d\n", l.what, d.NumEntities(), l.ents)
+			return
+		}
+	}
+	if d, err, _ := vfOpen(layouts[0].files); err == nil {
+		for alias, path := range map[string]string{"root": "a/root.pem", "sub": "b/c/sub.pem", "ee": "ee.pem"} {
+			cfg, _ := d.GetConfig(alias)
+			if cfg == nil || d.fsMetadata[alias] == nil || d.fsMetadata[alias].artifactFileName() != path {
+				fmt.Printf("VERIF-BOUNDED: violation alias %q is not the base name of its file or its artifact is not %q\n", alias, path)
+				return
+			}
+		}
+	}
 	fmt.Printf("VERIF-BOUNDED: ok cases=%d\n", n)
 }
 
